@@ -108,6 +108,12 @@ Stage == {Nothing, V("count"), V("exists"), Inc, Dbl, V("string"), NCall(V("powe
 ChainProgs == {NApply(NNum(IntV(3)), s1) : s1 \in Stage} \cup {NApply(NApply(NNum(IntV(3)), s1), s2) : s1 \in Stage, s2 \in Stage}
               \cup {NApply(NNum(IntV(3)), NBlock(<<NApply(s1, s2)>>)) : s1 \in Stage, s2 \in Stage}
               \cup {NCall(NBlock(<<NApply(NApply(s1, s2), s3)>>), <<NNum(IntV(3))>>) : s1 \in {Inc, Dbl, V("string")}, s2 \in {Inc, Dbl, V("string")}, s3 \in {Inc, Dbl, V("string")}}
+              \* v ~> f(a, b, c): calls with one to four written arguments, evaluated twice by the repeatability ride-along
+              \cup {NApply(NStr(<<97, 98, 99, 97, 98, 99>>), NCall(V("replace"), <<NStr(<<98>>), NStr(kx)>>)), NApply(NStr(<<97, 98, 99, 97, 98, 99>>), NCall(V("replace"), <<NStr(<<98>>), NStr(kx), NNum(IntV(1))>>)),
+                    NApply(NStr(<<97, 98, 99>>), NCall(V("substring"), <<NNum(IntV(1)), NNum(IntV(1))>>)), NApply(NStr(<<97, 98, 99>>), NCall(V("pad"), <<NNum(IntV(5)), NStr(kx)>>)),
+                    NApply(NNum(IntV(1)), NCall(NLambda(<<"p", "q", "r", "s">>, NArray(<<V("p"), V("q"), V("r"), V("s")>>)), <<NNum(IntV(2)), NNum(IntV(3)), NNum(IntV(4))>>)),
+                    NApply(NNum(IntV(1)), NCall(NLambda(<<"p", "q", "r", "s", "t", "u">>, NArray(<<V("p"), V("u")>>)), <<NNum(IntV(2)), NNum(IntV(3)), NNum(IntV(4)), NNum(IntV(5)), NNum(IntV(6))>>)),
+                    NApply(NNum(IntV(1)), NCall(V("append"), <<NNum(IntV(2))>>)), NApply(NArray(<<NNum(IntV(1))>>), NCall(V("zip"), <<NArray(<<NNum(IntV(2))>>), NArray(<<NNum(IntV(3))>>), NArray(<<NNum(IntV(4))>>)>>))}
               \* f ~> g as a value: g runs even when f yields no value (f then g)
               \cup {NCall(NBlock(<<NApply(s1, s2)>>), <<a>>) : s1 \in {Nothing, First}, s2 \in {V("count"), V("exists"), V("string"), NLambda(<<"v">>, NNum(IntV(9)))}, a \in {NArray(<<>>), NNum(IntV(3))}}
               \cup {NCall(NBlock(<<NApply(NApply(Inc, s1), s2)>>), <<NNum(IntV(3))>>) : s1 \in {Nothing}, s2 \in {V("count"), V("exists"), NLambda(<<"v">>, NNum(IntV(9)))}}
